@@ -964,6 +964,25 @@ def builder_rules(chk, P, prefix, select, floor):
                 for i, pn in enumerate(pnames[1:], start=2):
                     if pn in fields and not any(g == pn for g, _ in sets) and pn == stem:
                         return False, "%s never stores its `%s` argument" % (b.key, pn), [], b.span
+                # a configuration step changes the configuration: on every path it stores into a field of self, or hands self to a sibling step
+                if mir.o_is_param(r, idx=1):
+                    store_bbs = {bb for bb, j, st in b.statements(normal_only=True) if st["k"] == "assign" and st["place"].get("p") and
+                                 (st["place"]["l"] == 1 or (st["place"]["p"][0] == "*" and ("param", 1) in roots(b.origin({"c": {"l": st["place"]["l"]}}))))}
+                    # ... or mutates a part of self in place (`self.items.push(x)`, `resource.attributes.insert(..)` on a value stored afterwards)
+                    store_bbs |= {c.bb for c in b.calls(normal_only=True) if c.args and (b.local_ty(c.args[0].get("m", c.args[0].get("c", {})).get("l")) or "").startswith("&mut")
+                                  and ("param", 1) in roots(b.origin(c.args[0]))}
+                    deleg = {c.bb for c in b.calls(normal_only=True) if c.args and any(mir.o_is_param(mir.o_root(b.origin(a)), idx=1) for a in c.args[:1])
+                             and (c.callee.get("path") or "").split("<")[0].rsplit("::", 1)[0] == b.key.split("<")[0].rsplit("::", 1)[0]}
+                    if not (store_bbs | deleg):
+                        return False, ("%s returns self without ever storing anything into it: the option it is named after is silently not applied" % b.key), [], b.span
+                    # and every argument goes somewhere: into a store, or into a call
+                    for i, pn in enumerate(pnames[1:], start=2):
+                        used = any(st["k"] == "assign" and st["rv"]["k"] in ("use", "agg", "cast", "ref") and
+                                   any(("param", i) in roots(b.origin(o_)) for o_ in b.rvalue_operands(st["rv"]) if isinstance(o_, dict))
+                                   for bb, j, st in b.statements(normal_only=True)) or \
+                            any(("param", i) in roots(b.origin(a)) for c in b.calls(normal_only=True) for a in c.args)
+                        if not used:
+                            return False, "%s never uses its `%s` argument: the value given for it is dropped" % (b.key, pn or i), [], b.span
                 return True, "", [b.span]
             return True, "", [b.span]
         n += 1
